@@ -3,8 +3,8 @@ import itertools, random
 from .. import core, hist, world as W
 from .c01 import handles_ok, fix_disagreements
 
-MODULES = ['DsdVerif.Props.C04', 'DsdVerif.Props.PyDomain', 'DsdVerif.Props.PyDomain2']
-GEN_FILES = ['PyExprs', 'PyDomain', 'PySingleton']
+MODULES = ['DsdVerif.Props.C04', 'DsdVerif.Props.PyDomain', 'DsdVerif.Props.PyDomain2', 'DsdVerif.Props.PyDomain3', 'DsdVerif.Props.PyMembers']
+GEN_FILES = ['PyExprs', 'PyDomain', 'PySingleton', 'PyMembers']
 THEOREM_NAMES = ['domwf_init', 'domwf_request', 'domwf_drop', 'domwf_invert', 'complement_lengths_agree', 'conflict_raises',
                  'invert_involutive', 'dtype_rule', 'dtype_default_lengths', 'dtype_length_contradiction',
                  # the full model of DomainS.identifiers with its nested requests and temporary objects (Model/DomainFull.lean)
@@ -19,6 +19,10 @@ THEOREMS = ['Dsd.C04.' + t for t in THEOREM_NAMES] + ['Dsd.PyExprs.py_dtype_eq_m
         # the representation relation between the translated class state and the registry model, the death of an object, and the equality of the
         # translated identifiers with the model for two of its four branches (starred name with a length; plain name without)
         'rep_init', 'py_drop_eq', 'py_lenTemp_eq', 'py_identifiers_starred_length', 'py_identifiers_plain_name')]
+# DomainS.identifiers as written in the source equals the model in the remaining branches (unstarred name with a length: both nested requests; starred name without), for automatic names and dtype defaults
+THEOREMS += ['Dsd.PyDomain3.' + t for t in ['py_identifiers_unstarred_length', 'py_identifiers_starred_nolength', 'py_identifiers_auto_name', 'py_identifiers_dtype_default']]
+# the small DomainS members as written in the source (translator/pymembers.py -> Gen/PyMembers.lean): dtype rule, cname involution, ~d requests (cname, same length), bool(d) is length != 0
+THEOREMS += ['Dsd.PyMembers.' + t for t in ['py_name_eq', 'py_length_eq', 'py_len_eq', 'py_domain_truth_value', 'py_zero_length_domain_falsy', 'py_dtype_eq_expr', 'py_dtype_eq_model', 'py_dtype_rule', 'py_is_complement_iff', 'py_empty_name_raises', 'py_cname_eq', 'py_cname_involutive', 'py_cname_star_not_involutive', 'py_complement_requests', 'py_invert_requests']]
 ASSUMPTIONS = [
     'DomainS.identifiers is hand-modelled by its net effect (Model/Objects.lean: domainRequest); the temporary complement objects it '
     'creates and drops are modelled separately (Model/DomainFull.lean) and proved to have this net effect (Props/C04Full.lean)',
@@ -214,6 +218,8 @@ def run(res, proof):
     # hand-written fuel-bounded recursion in DriverDomain.lean) against the real class on the same op alphabet, after every step
     from .pydomain_stream import source_derived_pydomain
     source_derived_pydomain(res, proof)
+    from .pymembers_stream import source_derived_pymembers
+    source_derived_pymembers(res, proof)
 
 
 def replay(body, repo):
